@@ -3,6 +3,9 @@ import NipyVerif.Model.C11
 import Mathlib.Tactic.Ring
 import Mathlib.Tactic.Linarith
 import Mathlib.Algebra.Order.Field.Rat
+import Mathlib.Algebra.BigOperators.Group.List.Basic
+import Mathlib.Algebra.BigOperators.Ring.List
+import Mathlib.Tactic.FieldSimp
 
 namespace NipyVerif.C11
 
@@ -10,5 +13,280 @@ namespace NipyVerif.C11
 inductive Path (g : Graph) : Nat → Nat → Rat → Prop
   | nil (s : Nat) : Path g s s 0
   | snoc {s u v : Nat} {l w : Rat} : Path g s u l → (u, v, w) ∈ g.edges → Path g s v (l + w)
+
+/-- `b` is the length of a walk from some seed to `v` -/
+def Ach (g : Graph) (seeds : List Nat) (v : Nat) (b : Rat) : Prop := ∃ s ∈ seeds, Path g s v b
+
+theorem getD_set_some {α} (l : List (Option α)) (i j : Nat) (x : Option α) (b : α)
+    (h : (l.set i x).getD j none = some b) : (i = j ∧ x = some b) ∨ l.getD j none = some b := by
+  simp only [List.getD_eq_getElem?_getD, List.getElem?_set] at h ⊢
+  split at h
+  · next hij =>
+      split at h
+      · left; exact ⟨hij, by simpa using h⟩
+      · simp at h
+  · right; exact h
+
+/-! ### heap -/
+
+theorem heapMin_mem : ∀ (h : Heap) (m : Rat × Nat), heapMin h = some m → m ∈ h
+  | [], m, hm => by simp [heapMin] at hm
+  | x :: xs, m, hm => by
+      simp only [heapMin] at hm
+      cases hx : heapMin xs with
+      | none => rw [hx] at hm; simp at hm; simp [hm]
+      | some m' =>
+          rw [hx] at hm
+          simp only at hm
+          split at hm
+          · cases hm; exact List.mem_cons_of_mem _ (heapMin_mem xs _ hx)
+          · cases hm; simp
+
+theorem popMin_spec (h h' : Heap) (m : Rat × Nat) (hp : popMin h = some (m, h')) :
+    m ∈ h ∧ ∀ x ∈ h', x ∈ h := by
+  unfold popMin at hp
+  cases hm : heapMin h with
+  | none => rw [hm] at hp; simp at hp
+  | some m' =>
+      rw [hm] at hp
+      simp only [Option.some.injEq, Prod.mk.injEq] at hp
+      obtain ⟨rfl, rfl⟩ := hp
+      exact ⟨heapMin_mem h _ hm, fun x hx => List.mem_of_mem_erase hx⟩
+
+theorem popActive_spec (active : List Bool) : ∀ (f : Nat) (h h' : Heap) (m : Rat × Nat),
+    popActive active f h = some (m, h') → m ∈ h ∧ ∀ x ∈ h', x ∈ h
+  | 0, h, h', m, hp => by simp [popActive] at hp
+  | f + 1, h, h', m, hp => by
+      simp only [popActive] at hp
+      cases hq : popMin h with
+      | none => rw [hq] at hp; simp at hp
+      | some q =>
+          obtain ⟨m1, h1⟩ := q
+          rw [hq] at hp
+          simp only at hp
+          obtain ⟨hm1, hsub⟩ := popMin_spec h h1 m1 hq
+          split at hp
+          · simp only [Option.some.injEq, Prod.mk.injEq] at hp
+            obtain ⟨rfl, rfl⟩ := hp
+            exact ⟨hm1, hsub⟩
+          · obtain ⟨hm, hs⟩ := popActive_spec active f h1 h' m hp
+            exact ⟨hsub _ hm, fun x hx => hsub _ (hs x hx)⟩
+
+/-! ### relaxation invariant: every stored distance and every heap key is achieved by a walk -/
+
+def Inv (g : Graph) (seeds : List Nat) (st : St) : Prop :=
+  (∀ v b, st.dist.getD v none = some b → Ach g seeds v b) ∧ (∀ p ∈ st.heap, Ach g seeds p.2 p.1)
+
+theorem relax1_inv (g : Graph) (seeds : List Nat) (ref : List (Option Rat)) (vec : Bool) (dwin : Rat)
+    (lw : Option Nat) (st : St) (e : Nat × Rat) (hst : Inv g seeds st)
+    (he : Ach g seeds e.1 (dwin + e.2)) : Inv g seeds (relax1 ref vec dwin lw st e) := by
+  unfold relax1
+  simp only
+  generalize (if vec = true then ref.getD e.1 none else st.dist.getD e.1 none) = cmp
+  by_cases hc : optLt (dwin + e.2) cmp = true
+  · rw [if_pos hc]
+    refine ⟨fun v b hv => ?_, fun p hp => ?_⟩
+    · by_cases hb : optLt (dwin + e.2) (st.dist.getD e.1 none) = true
+      · simp only [hb, if_true] at hv
+        rcases getD_set_some _ _ _ _ _ hv with ⟨rfl, hb'⟩ | h
+        · cases hb'; exact he
+        · exact hst.1 v b h
+      · simp only [hb] at hv
+        exact hst.1 v b hv
+    · simp only [List.mem_cons] at hp
+      rcases hp with rfl | hp
+      · exact he
+      · exact hst.2 p hp
+  · rw [if_neg hc]; exact hst
+
+theorem foldl_relax_inv (g : Graph) (seeds : List Nat) (ref : List (Option Rat)) (vec : Bool) (dwin : Rat)
+    (lw : Option Nat) : ∀ (es : List (Nat × Rat)) (st : St), Inv g seeds st →
+    (∀ e ∈ es, Ach g seeds e.1 (dwin + e.2)) → Inv g seeds (es.foldl (relax1 ref vec dwin lw) st)
+  | [], st, hst, _ => hst
+  | e :: es, st, hst, hes => by
+      simp only [List.foldl_cons]
+      exact foldl_relax_inv g seeds ref vec dwin lw es _
+        (relax1_inv g seeds ref vec dwin lw st e hst (hes e (by simp)))
+        (fun e' he' => hes e' (List.mem_cons_of_mem _ he'))
+
+theorem mem_outEdges (g : Graph) (win : Nat) (e : Nat × Rat) (h : e ∈ outEdges g win) :
+    (win, e.1, e.2) ∈ g.edges := by
+  simp only [outEdges, List.mem_map, List.mem_filter, beq_iff_eq] at h
+  obtain ⟨⟨a, b, w⟩, ⟨hm, rfl⟩, rfl⟩ := h
+  exact hm
+
+theorem step_inv (g : Graph) (seeds : List Nat) (vec : Bool) (st st' : St) (hst : Inv g seeds st)
+    (h : step g vec st = some st') : Inv g seeds st' := by
+  unfold step at h
+  cases hp : popActive st.active (st.heap.length + 1) st.heap with
+  | none => rw [hp] at h; simp at h
+  | some q =>
+      obtain ⟨m, h'⟩ := q
+      rw [hp] at h
+      simp only [Option.some.injEq] at h
+      obtain ⟨hm, hsub⟩ := popActive_spec _ _ _ _ _ hp
+      have hach : Ach g seeds m.2 m.1 := hst.2 m hm
+      rw [← h]
+      apply foldl_relax_inv
+      · exact ⟨hst.1, fun p hp => hst.2 p (hsub p hp)⟩
+      · intro e he
+        obtain ⟨s, hs, hpath⟩ := hach
+        exact ⟨s, hs, Path.snoc hpath (mem_outEdges g m.2 e he)⟩
+
+theorem iter_inv (g : Graph) (seeds : List Nat) (vec : Bool) : ∀ (n : Nat) (st : St),
+    Inv g seeds st → Inv g seeds (iter g vec n st)
+  | 0, _, hst => hst
+  | n + 1, st, hst => by
+      simp only [iter]
+      cases hs : step g vec st with
+      | none => exact hst
+      | some st' => exact iter_inv g seeds vec n st' (step_inv g seeds vec st st' hst hs)
+
+theorem setAllFrom_zero (seeds : List Nat) (f : Nat → Option Rat) (hf : ∀ i, f i = some 0) :
+    ∀ (ss : List Nat) (i : Nat) (l : List (Option Rat)), (∀ s ∈ ss, s ∈ seeds) →
+    (∀ v b, l.getD v none = some b → v ∈ seeds ∧ b = 0) →
+    ∀ v b, (setAllFrom f ss i l).getD v none = some b → v ∈ seeds ∧ b = 0
+  | [], _, l, _, hl => hl
+  | s :: ss, i, l, hss, hl => by
+      simp only [setAllFrom]
+      apply setAllFrom_zero seeds f hf ss (i + 1) _ (fun x hx => hss x (List.mem_cons_of_mem _ hx))
+      intro v b hv
+      rcases getD_set_some _ _ _ _ _ hv with ⟨rfl, hb⟩ | h
+      · rw [hf] at hb; cases hb; exact ⟨hss _ (by simp), rfl⟩
+      · exact hl v b h
+
+theorem init_inv (g : Graph) (seeds : List Nat) : Inv g seeds (initSt g seeds) := by
+  refine ⟨fun v b hv => ?_, fun p hp => ?_⟩
+  · have := setAllFrom_zero seeds (fun _ => some 0) (fun _ => rfl) seeds 0 (List.replicate g.V none)
+      (fun s hs => hs) (fun v b h => by
+        simp only [List.getD_eq_getElem?_getD, List.getElem?_replicate] at h
+        split at h <;> simp at h) v b hv
+    obtain ⟨hs, rfl⟩ := this
+    exact ⟨v, hs, Path.nil v⟩
+  · simp only [initSt, List.mem_map] at hp
+    obtain ⟨s, hs, rfl⟩ := hp
+    exact ⟨s, hs, Path.nil s⟩
+
+/-- `Conn g u v`: `u` and `v` are joined by a chain of edges, followed in either direction -/
+inductive Conn (g : Graph) : Nat → Nat → Prop
+  | refl (u : Nat) : Conn g u u
+  | step {u v x : Nat} {w : Rat} : Conn g u v → ((v, x, w) ∈ g.edges ∨ (x, v, w) ∈ g.edges) → Conn g u x
+
+/-! ### adjacency sums -/
+
+theorem adjL_nil (i j : Nat) : adjL [] i j = 0 := by simp [adjL]
+
+theorem adjL_cons (e : Edge) (es : List Edge) (i j : Nat) :
+    adjL (e :: es) i j = (if e.1 = i ∧ e.2.1 = j then e.2.2 else 0) + adjL es i j := by
+  simp [adjL]
+
+theorem adjL_append (a b : List Edge) (i j : Nat) : adjL (a ++ b) i j = adjL a i j + adjL b i j := by
+  simp [adjL]
+
+theorem adjL_flatMap {α} (l : List α) (f : α → List Edge) (i j : Nat) :
+    adjL (l.flatMap f) i j = (l.map (fun x => adjL (f x) i j)).sum := by
+  induction l with
+  | nil => simp [adjL]
+  | cons a l ih => simp [List.flatMap_cons, adjL_append, ih]
+
+theorem sum_ite_range (f : Nat → Rat) (i : Nat) : ∀ V : Nat,
+    ((List.range V).map (fun k => if k = i then f k else 0)).sum = if i < V then f i else 0
+  | 0 => by simp
+  | V + 1 => by
+      rw [List.range_succ, List.map_append, List.sum_append, sum_ite_range f i V]
+      simp only [List.map_cons, List.map_nil, List.sum_cons, List.sum_nil, add_zero]
+      by_cases h1 : i < V
+      · have : ¬ V = i := by omega
+        simp [h1, this]; omega
+      · by_cases h2 : V = i
+        · subst h2; simp
+        · have : ¬ i < V + 1 := by omega
+          simp [h1, h2, this]
+
+/-- one row of a matrix-to-graph conversion -/
+theorem adjL_row (sel : Nat → Option Edge) (val : Nat → Rat) (i' i j : Nat)
+    (hs : ∀ j', sel j' = none ∨ sel j' = some (i', j', val j')) : ∀ l : List Nat,
+    adjL (l.filterMap sel) i j =
+      (l.map (fun j' => if j' = j then (if i' = i ∧ sel j' ≠ none then val j' else 0) else 0)).sum
+  | [] => by simp [adjL]
+  | a :: l => by
+      rw [List.filterMap_cons]
+      rcases hs a with h | h
+      · rw [h]; simp only [List.map_cons, List.sum_cons]
+        rw [adjL_row sel val i' i j hs l]; simp [h]
+      · rw [h]; simp only [List.map_cons, List.sum_cons]
+        rw [adjL_cons, adjL_row sel val i' i j hs l]
+        simp only [h]
+        by_cases h1 : a = j <;> by_cases h2 : i' = i <;> simp [h1, h2]
+
+/-- adjacency of a graph read off a matrix: entry `(i, j)` is `val i j` where an edge is emitted -/
+theorem adjL_matrix (V : Nat) (sel : Nat → Nat → Option Edge) (val : Nat → Nat → Rat)
+    (hs : ∀ i' j', sel i' j' = none ∨ sel i' j' = some (i', j', val i' j')) (i j : Nat)
+    (hi : i < V) (hj : j < V) :
+    adjL ((List.range V).flatMap (fun i' => (List.range V).filterMap (sel i'))) i j =
+      if sel i j = none then 0 else val i j := by
+  rw [adjL_flatMap]
+  have : ∀ i', adjL ((List.range V).filterMap (sel i')) i j =
+      if i' = i then (if sel i j = none then 0 else val i j) else 0 := by
+    intro i'
+    rw [adjL_row (sel i') (val i') i' i j (hs i') (List.range V), sum_ite_range _ j V]
+    by_cases h : i' = i
+    · subst h; simp [hj]
+    · simp [h, hj]
+  simp only [this]
+  rw [sum_ite_range (fun _ => if sel i j = none then 0 else val i j) i V]
+  simp [hi]
+
+theorem adjL_zero_of_not_hasEdge (es : List Edge) (i j : Nat) (h : hasEdge es i j = false) :
+    adjL es i j = 0 := by
+  induction es with
+  | nil => simp [adjL]
+  | cons e es ih =>
+      simp only [hasEdge, List.any_cons, Bool.or_eq_false_iff, Bool.and_eq_false_iff] at h
+      rw [adjL_cons, ih (by simpa [hasEdge] using h.2)]
+      have : ¬ (e.1 = i ∧ e.2.1 = j) := by
+        rintro ⟨h1, h2⟩
+        rcases h.1 with h' | h' <;> simp [h1, h2] at h'
+      simp [this]
+
+theorem fromDense_adj' (V : Nat) (M : Nat → Nat → Rat) (i j : Nat) (hi : i < V) (hj : j < V) :
+    (fromDense V M).adj i j = M i j := by
+  unfold Graph.adj fromDense
+  simp only
+  rw [adjL_matrix V (fun i' j' => if M i' j' = 0 then none else some (i', j', M i' j')) M
+    (fun i' j' => by by_cases h : M i' j' = 0 <;> simp [h]) i j hi hj]
+  by_cases h : M i j = 0 <;> simp [h]
+
+theorem fromSupport_adj' (V : Nat) (es : List Edge) (M : Nat → Nat → Rat) (i j : Nat)
+    (hi : i < V) (hj : j < V) :
+    (fromSupport V es M).adj i j = if hasEdge es i j then M i j else 0 := by
+  unfold Graph.adj fromSupport
+  simp only
+  rw [adjL_matrix V (fun i' j' => if hasEdge es i' j' then some (i', j', M i' j') else none) M
+    (fun i' j' => by by_cases h : hasEdge es i' j' = true <;> simp [h]) i j hi hj]
+  by_cases h : hasEdge es i j = true <;> simp [h]
+
+/-! ### kruskal -/
+
+theorem kruskalLoop_subset : ∀ (es : List Edge) (n : Nat) (lab : List Nat) (acc : List Edge) (x : Edge),
+    x ∈ kruskalLoop es n lab acc → x ∈ acc ∨ x ∈ es ∨ (x.2.1, x.1, x.2.2) ∈ es
+  | [], _, _, acc, x, h => by simp [kruskalLoop] at h; exact Or.inl h
+  | e :: es, n, lab, acc, x, h => by
+      simp only [kruskalLoop] at h
+      split at h
+      · exact Or.inl h
+      · split at h
+        · rcases kruskalLoop_subset es n lab acc x h with h | h | h
+          · exact Or.inl h
+          · exact Or.inr (Or.inl (List.mem_cons_of_mem _ h))
+          · exact Or.inr (Or.inr (List.mem_cons_of_mem _ h))
+        · rcases kruskalLoop_subset es _ _ _ x h with h | h | h
+          · simp only [List.mem_append, List.mem_cons, List.not_mem_nil, or_false] at h
+            rcases h with h | rfl | rfl
+            · exact Or.inl h
+            · exact Or.inr (Or.inl (by simp))
+            · exact Or.inr (Or.inr (by simp))
+          · exact Or.inr (Or.inl (List.mem_cons_of_mem _ h))
+          · exact Or.inr (Or.inr (List.mem_cons_of_mem _ h))
 
 end NipyVerif.C11
